@@ -237,3 +237,34 @@ where
 
     OpenHypergraph::new(s, t, c.h.clone()).unwrap()
 }
+
+#[cfg(feature = "verif-hooks")]
+pub mod verif_hooks_local {
+    use super::*;
+    pub fn interleave_blocks<K: ArrayKind, O, A>(
+        a: &IndexedCoproduct<K, SemifiniteFunction<K, O>>,
+        b: &IndexedCoproduct<K, SemifiniteFunction<K, O>>,
+    ) -> OpenHypergraph<K, O, A>
+    where
+        K::Type<K::I>: NaturalArray<K>,
+        K::Type<O>: Array<K, O> + PartialEq,
+        K::Type<A>: Array<K, A>,
+    {
+        super::interleave_blocks(a, b)
+    }
+
+    pub fn partial_dagger<K: ArrayKind + Debug, O, A>(
+        c: &OpenHypergraph<K, O, A>,
+        fa: &IndexedCoproduct<K, SemifiniteFunction<K, O>>,
+        fb: &IndexedCoproduct<K, SemifiniteFunction<K, O>>,
+        ra: &IndexedCoproduct<K, SemifiniteFunction<K, O>>,
+        rb: &IndexedCoproduct<K, SemifiniteFunction<K, O>>,
+    ) -> OpenHypergraph<K, O, A>
+    where
+        K::Type<K::I>: NaturalArray<K>,
+        K::Type<O>: Array<K, O>,
+        K::Type<A>: Array<K, A>,
+    {
+        super::partial_dagger(c, fa, fb, ra, rb)
+    }
+}
